@@ -372,5 +372,38 @@ func (o *oracleC19) after(c *stepCtx) *ViolationRec {
 	if post.Prec != o.prec || post.Mode != o.mode {
 		return fail("ctx-result", "receiver has prec=%d mode=%d, context has prec=%d mode=%d", post.Prec, post.Mode, o.prec, o.mode)
 	}
+	// independent reference: the exact result rounded once to the context's
+	// precision under the context's mode
+	var args []refNum
+	for _, a := range op.A {
+		args = append(args, refFromObs(c.pre[a]))
+	}
+	name := bareName(op.Name)
+	if want, ok := refArith(name, args, o.prec, int(o.mode)); ok {
+		o.cnt["checked_against_exact_reference"]++
+		got := refValue{Form: post.Form, Neg: post.Neg, Digits: post.Digits, Exp: int64(post.Exp), Acc: int(post.Acc)}
+		if got.Form != 1 {
+			got.Digits, got.Exp = "", 0
+		}
+		// the property speaks about the value ("correctly rounded"); truthfulness of
+		// Acc() is C02's subject and is not asserted here
+		got.Acc, want.Acc = 0, 0
+		if got != want {
+			v := fail("ctx-not-correctly-rounded", "result is not the exact result rounded once to prec=%d mode=%d:\n  got      %+v\n  expected %+v", o.prec, o.mode, got, want)
+			if name == "Sqrt" && got.Form == 1 && want.Form == 1 &&
+				withinUlps(got.Digits, got.Exp, want.Digits, want.Exp-int64(len(want.Digits)), o.prec, 1) {
+				// a neighbour (one unit in the last place) of the correctly rounded root
+				v.Sig += ":neighbour"
+			}
+			if name == "FMA" {
+				// intermediate product outside the exponent range while the sum is inside
+				pe := int64(c.pre[op.A[0]].Exp) + int64(c.pre[op.A[1]].Exp)
+				if pe > math.MaxInt32 || pe-1 < math.MinInt32 {
+					v.Sig += ":product-exponent-out-of-range"
+				}
+			}
+			return v
+		}
+	}
 	return nil
 }
